@@ -85,6 +85,7 @@ class Recorder:
         self.persist = {(k, l) for k, l in plan.get("persist", ())}
         self.evict = {(k, l) for k, l in plan.get("evict", ())}
         self.base = set(plan.get("base", ()))
+        self.rehome = {(k, l) for k, l in plan.get("rehome", ())}
         self.veto_class = VETO_KINDS[plan.get("exc")]
 
     def hook(self, kind, node, arg):
@@ -111,6 +112,22 @@ class Recorder:
             victim = next((c for c in arg.children if c is not node), None)
             if victim is not None:
                 victim.parent = None
+        elif (kind, label) in self.rehome and kind in ("pre_attach", "post_attach"):
+            # an attach hook that files the NEW PARENT itself somewhere else ('a task that gets its first subtask is moved
+            # below its owner'): the receiver goes below the first node that neither it nor the moving node has below itself
+            self.rehome.discard((kind, label))
+
+            def below(top, candidate):
+                cur = candidate
+                while cur is not None and cur is not top:
+                    cur = cur.parent
+                return cur is top
+
+            for other in self.universe:
+                if other is arg or other is arg.parent or below(arg, other) or below(node, other):
+                    continue
+                arg.parent = other
+                break
         elif (kind, label) in self.evict:
             # a *_children hook that re-files the first listed child under another node of the universe ('archive it')
             self.evict.discard((kind, label))
